@@ -493,3 +493,41 @@ func H_C20_Interleaved() {
 	rt.Assert("C20.interleaved-exactly-the-two-matches-in-order", len(got) == 2 && got[0] == ids[0] && got[1] == ids[2])
 	rt.Reach("end")
 }
+
+// H_C18_StreamListLengths: stream listings with parties of different address lengths: a 32-byte
+// sender whose last 20 bytes equal a 20-byte account Q, and a 32-byte receiver whose first 20 bytes
+// equal Q. Q took part in no stream: its listings are empty, and the real parties are reported
+// exactly.
+func H_C18_StreamListLengths() {
+	now := AnyBlockTime("now")
+	se := NewStreamEnv(now)
+	k, ctx := se.K, se.Ctx
+	q := Addr(0) // 20 bytes, never a party
+	s32 := make([]byte, 32)
+	r32 := make([]byte, 32)
+	for i := 0; i < 12; i++ {
+		s32[i] = 0xA0 + byte(i)
+		r32[20+i] = 0xB0 + byte(i)
+	}
+	copy(s32[12:], q)
+	copy(r32[:20], q)
+	sender, receiver := sdk.AccAddress(s32), sdk.AccAddress(r32)
+	st := streamtypes.Stream{Deposit: sdk.NewCoin("nund", rt.BigInt("deposit", 1, 128)), FlowRate: rt.I64("rate"), LastOutflowTime: now, DepositZeroTime: now, Cancellable: true}
+	_ = k.SetStream(ctx, receiver, sender, st)
+	_ = k.SetStream(ctx, Addr(1), sender, st)
+	pr := &query.PageRequest{Limit: 10}
+	bs, err1 := k.AllStreamsForSender(sdk.WrapSDKContext(ctx), &streamtypes.QueryAllStreamsForSenderRequest{SenderAddr: q.String(), Pagination: pr})
+	rt.Assert("C18+C20.no-streams-for-uninvolved-sender", err1 == nil && len(bs.Streams) == 0)
+	br, err2 := k.AllStreamsForReceiver(sdk.WrapSDKContext(ctx), &streamtypes.QueryAllStreamsForReceiverRequest{ReceiverAddr: q.String(), Pagination: pr})
+	rt.Assert("C18+C20.no-streams-for-uninvolved-receiver", err2 == nil && len(br.Streams) == 0)
+	ss, err3 := k.AllStreamsForSender(sdk.WrapSDKContext(ctx), &streamtypes.QueryAllStreamsForSenderRequest{SenderAddr: sender.String(), Pagination: pr})
+	rt.Assert("C18+C20.long-sender-lists-both-streams", err3 == nil && len(ss.Streams) == 2 && ss.Streams[0].Sender == sender.String() && ss.Streams[1].Sender == sender.String())
+	all, err4 := k.Streams(sdk.WrapSDKContext(ctx), &streamtypes.QueryStreamsRequest{Pagination: pr})
+	rt.Assert("C18+C20.all-streams-report-real-parties", err4 == nil && len(all.Streams) == 2)
+	if err4 == nil && len(all.Streams) == 2 {
+		for _, x := range all.Streams {
+			rt.Assert("C18+C20.listed-sender-is-creator", x.Sender == sender.String() && (x.Receiver == receiver.String() || x.Receiver == Addr(1).String()))
+		}
+	}
+	rt.Reach("end")
+}
